@@ -395,52 +395,57 @@ def update_body(a, r, d, l):
 
 
 def _sm_calls():
-    """Per-call options of the state-machine history family.  The first 15 are the
-    quick tier's; the wide (thorough) variants use all of them."""
+    """Per-call options of the state-machine history family.  [0:11] thorough
+    length-4 histories, [0:15] quick length-3 histories, all 24: wide (thorough)."""
     ok = dict(roleArn=ROLE1, definition=ASL1)
     bad = dict(roleArn=ROLE1, definition=NOT_JSON)
-    o = []
-    for nm in ("m1", "m2"):
-        o += [("CreateStateMachine", body(name=nm, **ok)), ("CreateStateMachine", body(name=nm, **bad))]
-    for nm in ("m1", "m2"):
-        o += [("UpdateStateMachine", body(stateMachineArn=sm_arn(nm), roleArn=ROLE2)),
-              ("UpdateStateMachine", body(stateMachineArn=sm_arn(nm), definition=ASL2, loggingConfiguration=LOG_ERR)),
-              ("UpdateStateMachine", body(stateMachineArn=sm_arn(nm), roleArn=ROLE2, definition=NOT_JSON))]
-    o += [("DeleteStateMachine", body(stateMachineArn=M1)), ("DeleteStateMachine", body(stateMachineArn=M2)),
-          ("DescribeStateMachine", body(stateMachineArn=M1)), ("DescribeStateMachine", body(stateMachineArn=M2)),
-          ("ListStateMachines", {})]
+
+    def upd(nm, **kw):
+        return ("UpdateStateMachine", body(stateMachineArn=sm_arn(nm), **kw))
+    o = [("CreateStateMachine", body(name="m1", **ok)), ("CreateStateMachine", body(name="m1", **bad)),
+         ("CreateStateMachine", body(name="m2", **ok)),
+         upd("m1", roleArn=ROLE2), upd("m1", definition=ASL2, loggingConfiguration=LOG_ERR), upd("m1", roleArn=ROLE2, definition=NOT_JSON),
+         upd("m2", roleArn=ROLE2),
+         ("DeleteStateMachine", body(stateMachineArn=M1)), ("DeleteStateMachine", body(stateMachineArn=M2)),
+         ("DescribeStateMachine", body(stateMachineArn=M1)), ("ListStateMachines", {})]
+    assert len(o) == 11
+    o += [("CreateStateMachine", body(name="m2", **bad)), upd("m2", definition=ASL2, loggingConfiguration=LOG_ERR),
+          upd("m2", roleArn=ROLE2, definition=NOT_JSON), ("DescribeStateMachine", body(stateMachineArn=M2))]
     assert len(o) == 15
-    for nm in ("m1", "m2"):
-        o += [("CreateStateMachine", body(name=nm, roleArn=ROLE2, definition=ASL2, type="EXPRESS", loggingConfiguration=LOG_ALL)),
-              ("CreateStateMachine", body(name=nm, roleArn="role/r", definition=ASL1)),
-              ("UpdateStateMachine", body(stateMachineArn=sm_arn(nm), roleArn=ROLE2, definition=ASL2)),
-              ("UpdateStateMachine", body(stateMachineArn=sm_arn(nm), roleArn=ROLE2, loggingConfiguration={"level": "BOGUS"})),
-              ("UpdateStateMachine", body(stateMachineArn=sm_arn(nm)))]
-    o += [("UpdateStateMachine", body(stateMachineArn=sm_arn("zz"), roleArn=ROLE2)),
-          ("DeleteStateMachine", body(stateMachineArn=sm_arn("zz"))), ("DescribeStateMachine", body(stateMachineArn="not-an-arn"))]
+    o += [("CreateStateMachine", body(name="m1", roleArn=ROLE2, definition=ASL2, type="EXPRESS", loggingConfiguration=LOG_ALL)),
+          ("CreateStateMachine", body(name="m2", roleArn="role/r", definition=ASL1)),
+          upd("m1", roleArn=ROLE2, definition=ASL2), upd("m1", roleArn=ROLE2, loggingConfiguration={"level": "BOGUS"}), upd("m1"),
+          upd("m2", roleArn=ROLE1, definition=BAD_ASL),
+          upd("zz", roleArn=ROLE2), ("DeleteStateMachine", body(stateMachineArn=sm_arn("zz"))),
+          ("DescribeStateMachine", body(stateMachineArn="not-an-arn"))]
+    assert len(o) == 24
     return o
 
 
 def _ex_calls():
     """Per-call options of the execution history family (m1 exists, execution
-    records planted: e1, e2 of m1; e4 of m2; e3 of a machine that does not exist)."""
+    records planted: e1, e2 of m1; e4 of m2; e3 of a machine that does not exist).
+    [0:11] thorough length 4, [0:15] quick length 3, all 24: wide (thorough)."""
     ok = dict(roleArn=ROLE1, definition=ASL1)
-    o = []
-    for nm in ("m1", "m2"):
-        o += [("CreateStateMachine", body(name=nm, **ok)), ("DeleteStateMachine", body(stateMachineArn=sm_arn(nm))),
-              ("StartExecution", body(stateMachineArn=sm_arn(nm), name="x1")), ("StartExecution", body(stateMachineArn=sm_arn(nm))),
-              ("ListExecutions", body(stateMachineArn=sm_arn(nm))), ("ListExecutions", body(stateMachineArn=sm_arn(nm), statusFilter="RUNNING"))]
-    o += [("DescribeStateMachineForExecution", body(executionArn=EX1)), ("DescribeStateMachineForExecution", body(executionArn=EX4)),
-          ("DescribeExecution", body(executionArn=EX1))]
+
+    def start(nm, **kw):
+        return ("StartExecution", body(stateMachineArn=sm_arn(nm), **kw))
+
+    def lst(nm, **kw):
+        return ("ListExecutions", body(stateMachineArn=sm_arn(nm), **kw))
+    o = [("CreateStateMachine", body(name="m2", **ok)), ("CreateStateMachine", body(name="m1", **ok)),
+         ("DeleteStateMachine", body(stateMachineArn=M1)), ("DeleteStateMachine", body(stateMachineArn=M2)),
+         start("m1", name="x1"), start("m1"), start("m2", name="x1"), lst("m1"), lst("m1", statusFilter="RUNNING"),
+         ("DescribeStateMachineForExecution", body(executionArn=EX1)), ("DescribeStateMachineForExecution", body(executionArn=EX4))]
+    assert len(o) == 11
+    o += [start("m2"), lst("m2"), lst("m2", statusFilter="RUNNING"), ("DescribeExecution", body(executionArn=EX1))]
     assert len(o) == 15
-    for nm in ("m1", "m2"):
-        o += [("CreateStateMachine", body(name=nm, roleArn=ROLE2, definition=ASL2, type="EXPRESS")),
-              ("UpdateStateMachine", body(stateMachineArn=sm_arn(nm), roleArn=ROLE2, definition=ASL2)),
-              ("StartExecution", body(stateMachineArn=sm_arn(nm), name="x2", input='{"k": 1}')),
-              ("StartExecution", body(stateMachineArn=sm_arn(nm), name="a b")),
-              ("ListExecutions", body(stateMachineArn=sm_arn(nm), statusFilter="SUCCEEDED"))]
-    o += [("DescribeStateMachineForExecution", body(executionArn=EX3)), ("DescribeExecution", body(executionArn=EX4)),
-          ("StartExecution", body(stateMachineArn=sm_arn("zz"), name="x1"))]
+    o += [("CreateStateMachine", body(name="m2", roleArn=ROLE2, definition=ASL2, type="EXPRESS")),
+          ("UpdateStateMachine", body(stateMachineArn=M1, roleArn=ROLE2, definition=ASL2)),
+          start("m1", name="x2", input='{"k": 1}'), start("m1", name="a b"), start("m2", name="x2", input="nope"), start("zz", name="x1"),
+          lst("m1", statusFilter="SUCCEEDED"),
+          ("DescribeStateMachineForExecution", body(executionArn=EX3)), ("DescribeExecution", body(executionArn=EX4))]
+    assert len(o) == 24
     return o
 
 
@@ -547,15 +552,15 @@ def _make(fe):
         return run(fe, v, [("CreateStateMachine", b), ("DescribeStateMachine", minted), ("ListStateMachines", {})], machines=PRE1)
 
     @condition(timeout={"quick": 120, "thorough": 1500},
-               bounds={"quick": {"NN": 9, "NR": 5, "ND": 7, "NT": 4, "NL": min(logn, 6), "LEN": 1, "AL": "'m /'", "K": 2},
-                       "thorough": {"NN": len(NAMES), "NR": len(ROLES), "ND": len(DEFS), "NT": len(TYPES), "NL": logn, "LEN": 2, "AL": "'m1 /\\n*'", "K": 3}},
+               bounds={"quick": {"NN": 9, "NR": 5, "ND": 7, "NT": 4, "NL": min(logn, 6), "LEN": 1, "AL": "'m /'", "K": 2, "KS": 2},
+                       "thorough": {"NN": len(NAMES), "NR": len(ROLES), "ND": len(DEFS), "NT": len(TYPES), "NL": logn, "LEN": 2, "AL": "'m1 /\\n*'", "K": 3, "KS": 2}},
                functions=[H + ">aws_api_CreateStateMachine", FN + ":valid_name", FN + ":valid_role_arn", "arn.create_arn / parse_arn",
                           H + ">aws_api_DescribeStateMachine", H + ">aws_api_ListStateMachines"] + (["statelint.StateLint.validate (as called by the handler)"] if fe == 0 else []))
     def create_args(v: bool, n: int, s: str, r: int, d: int, t: int, l: int) -> bool:
         """
         requires: 0 <= n < @NN@ and 0 <= r < @NR@ and 0 <= d < @ND@ and 0 <= t < @NT@ and 0 <= l < @NL@
         requires: (len(s) <= @LEN@ and name_ok(s, @AL@)) if n == 2 else s == ''
-        requires: deviations(n, r, d, t, l) <= @K@
+        requires: deviations(n, r, d, t, l) <= (@KS@ if n == 2 else @K@)
         ensures: _
         """
         return why_create_args(v, n, s, r, d, t, l) == ""
@@ -633,7 +638,7 @@ def _make(fe):
                               ("ListStateMachines", {})])
 
     @condition(timeout={"quick": 120, "thorough": 900},
-               bounds={"quick": {"N": 2, "M": 1, "AL": "'m: /\\n'"}, "thorough": {"N": 3, "M": 2, "AL": "'m1: /\\n\\x85*'"}},
+               bounds={"quick": {"N": 2, "M": 1, "AL": "'m: /\\n'"}, "thorough": {"N": 3, "M": 1, "AL": "'m1: /\\n\\x85'"}},
                functions=[FN + ":valid_name", "arn.create_arn / parse_arn (minting of state machine and execution ARNs)",
                           FN + ":valid_state_machine_arn", H + ">aws_api_CreateStateMachine / DescribeStateMachine / StartExecution / DeleteStateMachine"])
     def names(s: str, e: str) -> bool:
@@ -651,7 +656,7 @@ def _make(fe):
     SMF = [H + ">aws_api_CreateStateMachine", H + ">aws_api_UpdateStateMachine", H + ">aws_api_DeleteStateMachine",
            H + ">aws_api_DescribeStateMachine", H + ">aws_api_ListStateMachines"]
 
-    @condition(timeout={"quick": 150, "thorough": 2400}, bounds={"quick": {"K": 15, "L4": "False"}, "thorough": {"K": 15, "L4": "True"}},
+    @condition(timeout={"quick": 150, "thorough": 2400}, bounds={"quick": {"K": 15, "L4": "False"}, "thorough": {"K": 11, "L4": "True"}},
                functions=SMF)
     def sm_history(c1: int, c2: int, c3: int, c4: int) -> bool:
         """
@@ -683,7 +688,7 @@ def _make(fe):
     EXF = [H + ">aws_api_StartExecution", H + ">aws_api_DescribeStateMachineForExecution", H + ">aws_api_ListExecutions",
            H + ">aws_api_DescribeExecution", H + ">aws_api_CreateStateMachine", H + ">aws_api_DeleteStateMachine"]
 
-    @condition(timeout={"quick": 150, "thorough": 2400}, bounds={"quick": {"K": 15, "L4": "False"}, "thorough": {"K": 15, "L4": "True"}},
+    @condition(timeout={"quick": 150, "thorough": 2400}, bounds={"quick": {"K": 15, "L4": "False"}, "thorough": {"K": 11, "L4": "True"}},
                functions=EXF)
     def exec_history(c1: int, c2: int, c3: int, c4: int) -> bool:
         """
